@@ -3,6 +3,7 @@
 (* the oracle of Datatypes.  A trace is a sequence of records; record kinds:       *)
 (*   case  [dt, c, p, path, out]      out must be in Val(dt, c, p, path)           *)
 (*   rt.export / rt.wire / rt.text / rt.client  [dt, v, ...]  C02 laws on a value   *)
+(*   rt.exec [dt (command), a, r, ga, gr]   C02 law on a command call                *)
 (*   compat [a, b, passes]   equiv [dt, d1, d2, d2x, d3, probes]   alias [dt, before, after]   C03 *)
 (* One JVM judges a whole batch; a rejection names the violated clause.            *)
 EXTENDS Datatypes, Json, IOUtils, TLCExt, SequencesExt
@@ -45,6 +46,13 @@ ClientClause(e) ==           \* str(CacheItem) -> client from_string -> sent dat
     ELSE IF ~e.cs.ok \/ ~e.cssame THEN "text.client-set"
     ELSE IF ~EqModFloat(e.dt, e.v, e.cs.v) THEN "text.client-set.value"
     ELSE "ok"
+ExecClause(e) ==             \* one real SecopClient.execCommand against a node stand-in: ga = what the driver received, gr = what the caller got
+    IF e.dt.k # "command" THEN "machinery: not a command"
+    ELSE IF e.dt.arg.k # "none" /\ ~InSet(e.dt.arg, e.a, TRUE) THEN "machinery: argument outside the value set"
+    ELSE IF e.dt.res.k # "none" /\ ~InSet(e.dt.res, e.r, TRUE) THEN "machinery: result outside the value set"
+    ELSE IF e.ga # Ok(e.a) THEN "client.exec-command.argument"
+    ELSE IF e.gr # Ok(e.r) THEN "client.exec-command.result"
+    ELSE "ok"
 RtGuard(e, c) == IF InSet(e.dt, e.v, TRUE) THEN c ELSE "machinery: value outside the value set"
 
 (* C03 records *)
@@ -71,6 +79,7 @@ Clause(e) == CASE e.kind = "case" -> CaseClause(e)
                [] e.kind = "rt.wire" -> RtGuard(e, WireClause(e))
                [] e.kind = "rt.text" -> RtGuard(e, TextClause(e))
                [] e.kind = "rt.client" -> RtGuard(e, ClientClause(e))
+               [] e.kind = "rt.exec" -> ExecClause(e)
                [] OTHER -> "unknown record kind"
 
 RecDt(e) == IF "dt" \in DOMAIN e THEN e.dt ELSE e.a
